@@ -13,6 +13,7 @@ import (
 	"path/filepath"
 	"regexp"
 	"runtime/debug"
+	"runtime/pprof"
 	"sort"
 	"strconv"
 	"strings"
@@ -317,6 +318,14 @@ func RunProperty(t *testing.T, spec *Spec) {
 	col := newCollector(spec)
 	col.test = t.Name()
 	defer col.flush()
+	if dump := os.Getenv("VERIF_DUMP_GOROUTINES"); dump != "" {
+		defer func() {
+			if f, err := os.Create(dump); err == nil {
+				_ = pprof.Lookup("goroutine").WriteTo(f, 1)
+				_ = f.Close()
+			}
+		}()
+	}
 	known := knownFor(spec.ID)
 
 	// replay mode: one saved case, no generator
